@@ -86,6 +86,22 @@ theorem idempotent (sqrt : α → α) (t : Track α) :
   ⟨computeAbsCurv_idem sqrt t, estimateSpeed_idem sqrt t, (computeAbsCurv_has sqrt t).1,
    (computeAbsCurv_has sqrt t).2, estimateSpeed_has sqrt t⟩
 
+/-- T3c. On a track without `ds` / `abs_curv` (resp. `speed`) the only change to the feature table is one
+appended column, `abs_curv` (resp. `speed`): the temporary `ds` is gone. -/
+theorem only_adds (sqrt : α → α) (t : Track α) :
+    (t.has "ds" = false → t.has "abs_curv" = false →
+      (computeAbsCurv sqrt t).1.feats
+        = t.feats ++ [("abs_curv", (List.range t.xy.length).map (fun i => some (absc sqrt t.xy i)))])
+    ∧ (t.has "speed" = false →
+      (estimateSpeed sqrt t).1.feats = t.feats ++ [("speed", speedCol sqrt t.xy t.ts)]) := by
+  constructor
+  · intro hds hac
+    rw [computeAbsCurv_fresh sqrt t hds hac, integrator_dsCol]
+    simp [Track.set, hac]
+  · intro hsp
+    rw [estimateSpeed_fresh sqrt t hsp]
+    simp [Track.set, hsp]
+
 end anyScalar
 
 section field
